@@ -286,10 +286,48 @@ tok%(u)s(n: SI): Integer == {
     return d, [], "tok%s(%d)" % (u, 1)
 
 
+def b_frag(u, rng, n):
+    """Fragmentation followed by large objects: a long list is thinned so that the next
+    collection frees many pages but no long run of adjacent ones, then arrays of tens
+    to hundreds of kilobytes are requested."""
+    cells = rng.choice([60000, 150000, 300000, 600000])
+    keep = rng.range(200, 400)
+    drop = rng.range(600, 2000)
+    sz = rng.choice([9000, 20000, 20000, 50000, 130000])
+    m = max(4, min(150, (cells * 40) // sz // 8))
+    d = '''
+frg%(u)s(n: SI): SI == {
+	import from List Array SI;
+	r: List SI := nil;
+	i: SI := 1;
+	while i <= n repeat { r := cons(i, r); i := i + 1 }
+	p := r;
+	while not empty? p repeat {
+		k: SI := 1;
+		while k < %(keep)d and not empty? rest p repeat { p := rest p; k := k + 1 }
+		q := rest p;
+		d: SI := 0;
+		while d < %(drop)d and not empty? q repeat { q := rest q; d := d + 1 }
+		setRest!(p, q);
+		p := q;
+	}
+	as: List Array SI := nil;
+	j: SI := 1;
+	while j <= %(m)d repeat { as := cons(new(%(sz)d, j), as); j := j + 1 }
+	t: SI := 0;
+	for a in as repeat t := t + a.1 + a.%(sz)d;
+	for x in r repeat t := (t + x rem 7) rem %(M)d;
+	t
+}
+''' % dict(u=u, keep=keep, drop=drop, sz=sz, m=m, M=M)
+    return d, [], "frg%s(%d)" % (u, cells)
+
+
 BLOCKS = [("list", b_list, 4), ("record", b_record, 4), ("node", b_node, 2), ("closure", b_closure, 2),
           ("generator", b_generator, 2), ("bigint", b_bigint, 3), ("string", b_string, 2), ("table", b_table, 2),
           ("array", b_array, 3), ("domain", b_domain, 1),
-          ("exn", b_exn, 2), ("union", b_union, 2), ("float", b_float, 1), ("tokens", b_tokens, 1)]
+          ("exn", b_exn, 2), ("union", b_union, 2), ("float", b_float, 1), ("tokens", b_tokens, 1),
+          ("frag", b_frag, 0)]		# weight 0: only when forced (it is expensive)
 
 
 def gen_blocks(rng, size="small", force=()):
@@ -298,7 +336,7 @@ def gen_blocks(rng, size="small", force=()):
     out = []
     forced = [b for b in BLOCKS if b[0] in force]
     for i in range(nb + len(forced)):
-        kind, fn, _ = forced[i - nb] if i >= nb else rng.weighted([(b, b[2]) for b in BLOCKS])
+        kind, fn, _ = forced[i - nb] if i >= nb else rng.weighted([(b, b[2]) for b in BLOCKS if b[2] > 0])
         if size == "small":
             n = rng.loguniform(5, 120)
         elif size == "tiny":
